@@ -454,4 +454,50 @@ theorem libTINY_pos : (0 : ℝ) < libTINY := by
   simp only [libTINY, Generated.TransformConstants.TINY, ofRat_eq]
   norm_num
 
+/-- for small positive angles `tan w ≤ 2 w` -/
+theorem tan_le_two_mul {w : ℝ} (h0 : 0 ≤ w) (h1 : w ≤ 1) : Real.tan w ≤ 2 * w := by
+  have hc : 1 / 2 ≤ Real.cos w := by
+    have := Real.one_sub_sq_div_two_le_cos (x := w)
+    nlinarith
+  have hcpos : 0 < Real.cos w := by linarith
+  have hs : Real.sin w ≤ w := Real.sin_le h0
+  rw [Real.tan_eq_sin_div_cos, div_le_iff₀ hcpos]
+  nlinarith
+
+/-- the angle guard of the tangent transform with the library's constant: coordinates up to
+`10^15` scales stay below `PI()/2` -/
+theorem arctan_abs_lt_libPI_half {y : ℝ} (hy : |y| ≤ 10 ^ 15) : |Real.arctan y| < (libPI : ℝ) / 2 := by
+  -- δ = π/2 - PI()/2 is tiny but positive; arctan(10^15) = π/2 - arctan(10^-15) < π/2 - δ
+  have hgt := Real.pi_gt_d20
+  have hlt := Real.pi_lt_d20
+  have hP : (3.1415926535897931 : ℝ) < libPI := by
+    simp only [libPI, Generated.TransformConstants.PI, ofRat_eq]; norm_num
+  set Y : ℝ := 10 ^ 15 with hY
+  have hYpos : 0 < Y := by positivity
+  -- key: arctan Y < PI()/2
+  have key : Real.arctan Y < (libPI : ℝ) / 2 := by
+    have hinv : Real.arctan Y = Real.pi / 2 - Real.arctan Y⁻¹ := by
+      have := Real.arctan_inv_of_pos hYpos
+      linarith
+    set δ : ℝ := Real.pi / 2 - libPI / 2 with hδ
+    have hδ0 : 0 ≤ δ := by rw [hδ]; linarith [libPI_lt_pi]
+    have hδ1 : δ ≤ 2e-16 := by rw [hδ]; norm_num at hlt hP ⊢; linarith
+    -- tan δ ≤ 2 δ < 10^-15
+    have ht : Real.tan δ < Y⁻¹ := by
+      have h2 := tan_le_two_mul hδ0 (by linarith)
+      have : (2 : ℝ) * 2e-16 < Y⁻¹ := by rw [hY]; norm_num
+      linarith
+    have hδr : δ < Real.pi / 2 := by rw [hδ]; linarith [libPI_pos]
+    have : δ < Real.arctan Y⁻¹ := by
+      have h3 := Real.arctan_strictMono ht
+      rwa [Real.arctan_tan (by linarith [Real.pi_pos]) hδr] at h3
+    rw [hinv]; rw [hδ] at this; linarith
+  have hmono : |Real.arctan y| ≤ Real.arctan Y := by
+    rw [abs_le] at hy ⊢
+    constructor
+    · have := Real.arctan_strictMono.monotone hy.1
+      rwa [Real.arctan_neg] at this
+    · exact Real.arctan_strictMono.monotone hy.2
+  exact lt_of_le_of_lt hmono key
+
 end Bpp.Transform
